@@ -7,6 +7,8 @@ from mc import fsm
 from mc.world import make_calc
 
 PID = 'C15'
+# thread bodies (defined with engine E4, mc/checks/c10_sched.py) that exercise this property's code; explored after the parts below
+SCHED_SETS = [('firex||fire', 'call')]
 LEVEL = 'model_checking'
 ENGINE = 'E1+E3'
 TECHNIQUE = 'exhaustive enumeration of sight/barrel/look/speed configurations x record steps incl. steps that collide with the event step, events derived independently from the full step trace; plus all side/advance/Mach sequences up to depth n through the real record filter against an event reference model'
@@ -285,7 +287,44 @@ def filt(cell):
     return {'v': out, 'n': nseq, 'nt': cell if nseq else None, 'states': nseq, 'transitions': calls, 'traces': nseq}
 
 
-PARTS = {'trace': trace_cell, 'filter': filt}
+REUSE = {
+    'super': ({'mv': 2750.0, 'zero': 0.1}, 600.0),                          # ends supersonic, crosses the sight line up and down
+    'sub': ({'mv': 1000.0, 'zero': 0.3, 'dm': 'G1', 'bc': 0.3}, 450.0),      # launched subsonic: no Mach row ever
+    'trans': ({'mv': 1150.0, 'zero': 0.3, 'dm': 'G1', 'bc': 0.15}, 450.0),   # falls through Mach 1 inside the range
+    'down': ({'mv': 2750.0, 'zero': -0.2, 'look': -10.0}, 450.0),            # never crosses the sight line
+    'above': ({'mv': 2750.0, 'zero': -0.05, 'sh': -1.0}, 450.0),             # starts above the sight line: one crossing, downward
+    'fail': ({'mv': 1150.0, 'zero': 2.0, 'dm': 'G1', 'bc': 0.05}, 30000.0),  # far beyond reach: ends in a range error after Mach and both crossings
+}
+
+
+def reuse(cell):
+    """ONE calculator, two extra-data requests in a row (every ordered pair of six kinds of shot, one of which ends in a range error): the
+    second result - rows, flags and all - is bit-identical to the one a new calculator gives, so every event row of it is judged on its own"""
+    import py_ballisticcalc as pb
+    from mc.world import make_shot, traj_bits
+    U = pb.Unit
+    a, b = cell
+
+    def go(calc, name):
+        spec, R = REUSE[name]
+        try:
+            rows = calc.fire(make_shot(dict(spec)), U.Foot(R), U.Foot(R / 3), True).trajectory
+            return ['ok', [int(r.flag) for r in rows], traj_bits(rows)]
+        except pb.RangeError as e:
+            rows = e.incomplete_trajectory
+            return ['RangeError', [int(r.flag) for r in rows], traj_bits(rows)]
+    calc = pb.Calculator()
+    go(calc, a)
+    got = go(calc, b)
+    exp = go(pb.Calculator(), b)
+    out = []
+    if got != exp:
+        out.append({'msg': f'extra-data request {b!r} on a calculator that has just computed {a!r}: event flags {got[1]} / result {got[0]}; a new calculator gives flags {exp[1]} / {exp[0]}'
+                           + ('' if got[1] != exp[1] else ' (same flags, rows differ)'), 'key': None})
+    return {'v': out, 'n': 3, 'states': 2, 'transitions': 2, 'traces': 1, 'nt': cell, 'obs': [sorted(set(exp[1]))]}
+
+
+PARTS = {'trace': trace_cell, 'filter': filt, 'reuse': reuse}
 
 
 def plan(tier):
@@ -297,4 +336,5 @@ def plan(tier):
     tr += [[sh, bar, la, 2750.0, {'cant': c}] for sh in (2.0, -1.0) for bar in ('up10', 'below', 'along') for la in (0.0, 20.0) for c in (60.0, 120.0, 180.0)]
     n = 4 if tier == 'quick' else 5
     fl = [[s, b, n, rs] for s in ('below', 'on', 'above') for b in ('above', 'equal', 'below') for rs in (2.0, 4.0)]
-    return [('trace', tr), ('filter', fl)]
+    ru = [[a_, b_] for a_ in REUSE for b_ in REUSE]
+    return [('trace', tr), ('filter', fl), ('reuse', ru)]
